@@ -1068,6 +1068,12 @@ func (c *Conn) handleFinish(ctx context.Context, id answerID, releaseResultCaps 
 		ans.cancel()
 	}
 	if ans.flags&returnSent == 0 {
+		if ans.flags&returnSending != 0 {
+			// The Return is being written: the peer may reuse the ID
+			// once it has read it.  sendReturn/sendException finish
+			// the cleanup.
+			delete(c.answers, id)
+		}
 		c.mu.Unlock()
 		return nil
 	}
